@@ -221,6 +221,9 @@ pub fn jobs(id: &str, thorough: bool) -> Vec<Job> {
             for c in engine_p::configs_wait(2, true) {
                 v.push(Job::P { cfg: c, bound: 1 });
             }
+            for c in engine_p::configs_wait_many() {
+                v.push(Job::P { cfg: c, bound: 0 });
+            }
         }
         "C16" => {
             for c in engine_p::configs_pay(2, false) {
